@@ -75,9 +75,11 @@ def run_scenarios(pid, scenarios, jobs=12):
             running.append((i,) + start(i))
         i, p, tp, sp = running.pop(0)
         try:
-            _, err = p.communicate(timeout=300)
+            _, err = p.communicate(timeout=120)
         except subprocess.TimeoutExpired:
             p.kill()
+            for _, q, _, _ in running:
+                q.kill()
             raise ToolError('simnet timed out on scenario %d' % i)
         if not os.path.exists(tp):
             raise ToolError('simnet produced no trace for scenario %d (rc=%s): %s' % (i, p.returncode, err.decode()[-400:]))
@@ -272,14 +274,14 @@ def validate(pid, scns, traces, max_reports=8):
     groups = {}
     for i, (s, t) in enumerate(zip(scns, traces)):
         groups.setdefault((s.geometry(), ), []).append(i)
-    problems = []
-    accepted = 0
-    for (geo,), idxs in groups.items():
+    def one_group(item):
+        (geo,), idxs = item
+        probs, acc = [], 0
         npeers = max(max(len(scns[i].sc['peers']) for i in idxs),
                      max((int(ev['k'][1:]) for i in idxs for ev in traces[i] if ev.get('k', '').startswith('p')), default=1))
         d, mod, cfg = geometry_module(pid, geo, max(npeers, 1))
         todo = list(idxs)
-        while todo and len(problems) < max_reports:
+        while todo and len(probs) < max_reports:
             tpath = os.path.join(d, mod + '.ndjson')
             owner = []
             with open(tpath, 'w') as f:
@@ -290,19 +292,29 @@ def validate(pid, scns, traces, max_reports=8):
             res = run_tlc_trace(d, mod, cfg, tpath)
             matched = res['matched']
             if res['inv'] is None and matched == len(owner):
-                accepted += len(todo)
+                acc += len(todo)
                 break
             # the scenario owning the first unmatched line fails; everything before it was accepted
             bad_line = matched if matched < len(owner) else len(owner) - 1
             bad = owner[bad_line]
             k = todo.index(bad)
-            accepted += k
+            acc += k
             first = sum(len(traces[i]) for i in todo[:k])
             ev = traces[bad][bad_line - first] if bad_line - first < len(traces[bad]) else None
-            problems.append({'scenario': bad, 'event_index': bad_line - first, 'event': ev, 'inv': res['inv'],
-                             'kind': 'invariant' if res['inv'] else 'rejected', 'tlc_tail': res['tail']})
+            probs.append({'scenario': bad, 'event_index': bad_line - first, 'event': ev, 'inv': res['inv'],
+                          'kind': 'invariant' if res['inv'] else 'rejected', 'tlc_tail': res['tail']})
             todo = todo[k + 1:]
-    return accepted, problems
+        return acc, probs
+
+    # geometry groups are independent: validate them in parallel (one single-worker TLC each)
+    from concurrent.futures import ThreadPoolExecutor
+    problems = []
+    accepted = 0
+    with ThreadPoolExecutor(max_workers=6) as ex:
+        for acc, probs in ex.map(one_group, list(groups.items())):
+            accepted += acc
+            problems.extend(probs)
+    return accepted, problems[:max_reports * 2]
 
 
 def run_tlc_trace(d, mod, cfg, tpath):
